@@ -603,6 +603,11 @@ def run(chk):
     check_readlink(chk, tu)
     check_raw_guest_writes(chk, tu)
     check_opened_descriptor_path(chk, tu)
+    # R14.8: "with its error code translated" - every path import reports a failed host call through wasiErrno(); the table is decided
+    # row by row against the witx numbers (rule shared with C12 R12.3), and each path import's failure paths must return that translation
+    from . import c12
+    c12.check_errno_table(chk, tu, W.host_macros(('E', 'SEEK_', 'O_')), rule='R14.8')
+    chk.floor('R14.8', 30)
     chk.floor('R14.7', 8)
     chk.floor('R14.1', 40)
     chk.floor('R14.2', 8)
